@@ -27,7 +27,7 @@ import (
 // ---------------------------------------------------------------- floats
 
 // floatPool: the decimal64 values the generators use (all exactly printable).
-var floatPool = []float64{0.00001, 0.00000001, 123456.78901234, 0, 1, -1, 1.5, -2.25, 3.14, 100.01, 150, 0.5, 12.3, 4.2, -5.5, 5.5, 199.99, 0.1, 7, 42.42, 1234.5, 0.001, 2.125}
+var floatPool = []float64{0.00001, 0.00000001, 123456.78901234, 123456.78, 16777217, 16777217.25, -8388609.5, 0, 1, -1, 1.5, -2.25, 3.14, 100.01, 150, 0.5, 12.3, 4.2, -5.5, 5.5, 199.99, 0.1, 7, 42.42, 1234.5, 0.001, 2.125}
 
 // floatsSeen collects every float that crosses the model boundary in a run, for the oracle tables.
 var floatsSeen = map[uint64]float64{}
